@@ -16,11 +16,12 @@
    Composite.Unmarshal into a nil pointer of the same type, returns every non-zero field unchanged at every depth
    (C11_nested_roundtrip, by induction over the depth), and so does Message.Marshal / Message.Unmarshal for structs bound
    to composite data elements of a message object that has not been populated (C11_struct_roundtrip_nested, depth within
-   the library's recursion = the model's fuel 8). keepzero: a struct field tagged keepzero is written whatever its value,
+   the library's recursion = the model's fuel 8), also after Pack and Unpack into another message object
+   (C11_struct_wire_roundtrip_nested). keepzero: a struct field tagged keepzero is written whatever its value,
    and the zero value of every documented Go type marshals (C11_keepzero_written, C11_zero_marshals); what a
    keepzero zero field reads back as (a nil pointer comes back as a pointer to the zero value) is outside "every
    non-zero field" and covered by correspondence over the whole matrix. *)
-From Iso Require Import Model.Base Model.Padding Model.Encoding Model.Prefix Model.Bitmap Model.Spec Model.Field Model.Message Model.Marshal Proofs.BaseLemmas Proofs.MarshalProofs Proofs.MessageRoundtrip Proofs.MarshalStruct Proofs.MarshalNested.
+From Iso Require Import Model.Base Model.Padding Model.Encoding Model.Prefix Model.Bitmap Model.Spec Model.Field Model.Message Model.Marshal Proofs.BaseLemmas Proofs.MarshalProofs Proofs.CompositeProofs Proofs.MessageRoundtrip Proofs.MarshalStruct Proofs.MarshalNested.
 From Coq Require Import Lia.
 
 Theorem C11_roundtrip_string :
@@ -149,6 +150,24 @@ Theorem C11_struct_roundtrip_nested : forall S m fields vals, length vals = leng
 Proof. exact gstruct_roundtrip. Qed.
 Print Assumptions C11_struct_roundtrip_nested.
 
+(* ... and the nested version via Pack and Unpack into another message: composite states that are equivalent (what the
+   round trip of C01 gives) unmarshal to the same value (C11_unmarshal_equiv) *)
+Theorem C11_unmarshal_equiv : forall n s x y t cur, equiv s x y -> unmarshal_from n s y t cur = unmarshal_from n s x t cur.
+Proof. exact unmarshal_equiv. Qed.
+Print Assumptions C11_unmarshal_equiv.
+
+Theorem C11_struct_wire_roundtrip_nested : forall S m fields vals, length vals = length fields ->
+  let l := zip_decls fields vals in
+  Forall (grow_ok S m) l -> NoDup (map rid (filter indexed l)) ->
+  (forall r, In r l -> 0 <= rid r -> zmem (rid r) (m_present m) = false) ->
+  msg_coherent S ->
+  exists m', m_marshal S m (TPtr (TStruct fields)) (VPtr (Some (VStruct vals))) = (m', Ok tt) /\
+    forall mp b, msg_in_dom S m' -> m_pack S m' = (mp, Ok b) -> forall m0 rest, msg_shaped S m0 ->
+      exists m2, m_unpack S m0 (b ++ rest) = (m2, UOk (zlen b)) /\
+        m_unmarshal S m2 (TPtr (TStruct fields)) (VPtr (Some (VStruct (map (fun df => g_zero (snd df)) fields)))) = Ok (VPtr (Some (VStruct (map (gexpected S) l)))).
+Proof. exact gstruct_wire_roundtrip. Qed.
+Print Assumptions C11_struct_wire_roundtrip_nested.
+
 (* an instance: struct { F0 string; F2 *string `iso8583:"2"`; Amount int64 `index:"3"`; Note string (no index); F4 string (zero) } *)
 Definition s11 : mspec :=
   {| ms_mti := {| ps_kind := KString; ps_enc := EncASCII; ps_pref := PFixed PfASCII; ps_len := 4; ps_pad := PadNone; ps_packer := PkDefault |};
@@ -188,7 +207,7 @@ Example C11_ex_nested : vok 2 cn tn vn /\
   expv 2 cn tn vn = VPtr (Some (VStruct [VStr [x61; x62]; VInt64 7; VStr []; VStr []])) /\
   (exists st, marshal_into 2 cn (fresh cn) tn vn = Ok st /\ unmarshal_from 2 cn st tn (g_zero tn) = Ok (VPtr (Some (VStruct [VStr [x61; x62]; VInt64 7; VStr []; VStr []])))).
 Proof.
-  split; [|split; [vm_compute; reflexivity|eexists; split; vm_compute; reflexivity]].
+  split; [|split; [vm_compute; reflexivity|eexists; split; [vm_compute; reflexivity|vm_compute; reflexivity]]].
   cbn [vok cn]. split; [repeat constructor; cbn; intuition discriminate|]. eexists _, _. split; [reflexivity|]. split; [reflexivity|]. split; [reflexivity|].
   split; [vm_compute; repeat constructor; cbn; intuition discriminate|]. cbn [zip_decls].
   apply Forall_cons; [|apply Forall_cons; [|apply Forall_cons; [|apply Forall_cons; [|apply Forall_nil]]]].
